@@ -176,6 +176,30 @@ class _RecFeatureBase(Feature):
 RecFeature = type("RecFeature", (_RecFeatureBase,), _mk_callbacks("feature", FEATURE_EVENT_CLASSES))
 
 
+class _RecFeatureSparseBase(Feature):
+    """A feature that is notified rarely (custom events of one class only) but whose value is read from the
+    exchange every time it is parsed: its recorded history must still be filed under the time of each parse."""
+
+    def __init__(self, sink, tag, contract=None, name=None):
+        self._sink = sink
+        self._tag = tag
+        self._contract = contract
+        self._seen = 0
+        super().__init__(name=name)
+
+    def _on_event(self, event):
+        self._seen += 1
+
+    def parse(self):
+        mid = float("nan")
+        if getattr(self, "exchange", None) is not None and self._contract is not None:
+            mid = self.exchange[self._contract].mid_price
+        return np.array([float(self._seen), 0.0 if mid != mid else float(mid)])
+
+
+RecFeatureSparse = type("RecFeatureSparse", (_RecFeatureSparseBase,), _mk_callbacks("feature", ["EvA"]))
+
+
 class RecFeatureInherited(RecFeature):
     """The same feature, but every callback is inherited from the parent class (a user who subclasses a
     feature to tweak parse() expects the subscriptions to come along)."""
@@ -322,8 +346,18 @@ class EnvHandle(object):
             sink.crash_on[tag] = set(st["crash_on"])
         if st["type"] == "rec":
             fcls = RecFeatureInherited if st.get("inherited") else RecFeature
+            if st.get("twin_class"):
+                # two different observer classes with the same module and qualified name live in the process (a class
+                # redefined under the same name, a factory): the first one, instanced first, subscribes to less
+                narrow = type("RecFeature", (_RecFeatureBase,), dict(_mk_callbacks("feature", ["EventNewDate"]), __module__=__name__))
+                narrow(sink, tag, 1, name="narrow")
+                fcls = type("RecFeature", (_RecFeatureBase,), dict(_mk_callbacks("feature", FEATURE_EVENT_CLASSES), __module__=__name__))
             scls = RecStateInherited if st.get("inherited") else RecState
             feats = [fcls(sink, tag, st.get("k", 3), name="roll", reads_account=bool(st.get("reads_account")))] if st.get("feature", True) else None
+            if st.get("sparse_feature"):
+                c0 = self.contracts[0]
+                if spec["contracts"][0]["kind"] != "chain":
+                    feats = (feats or []) + [RecFeatureSparse(sink, tag, contract=c0, name="sparse")]
             self.state = scls(sink, tag, feats)
         elif st["type"] == "window":
             self.state = RecWindowState(sink, tag, st["n"], st["window"], st.get("stride"))
